@@ -11,6 +11,7 @@ LEVEL = 'exploration'
 S = ps.ProcessState
 
 _ALL = {}
+_NSMALL = [0]
 
 
 def family(tier):
@@ -18,7 +19,9 @@ def family(tier):
         if tier == 'quick':
             fam = outlines.enumerate_outlines(4, 2)
         else:
-            fam = outlines.enumerate_outlines(5, 2) + [o for o in outlines.enumerate_outlines(6, 3) if outlines.size(o) == 6][::7]
+            small = outlines.enumerate_outlines(4, 2)
+            fam = small + [o for o in outlines.enumerate_outlines(5, 2) if outlines.size(o) == 5][::8]
+            _NSMALL[0] = len(outlines.HANDPICKED) + len([o for o in small if outlines.count(o)[0] + outlines.count(o)[1] > 0])
         fam = list(outlines.HANDPICKED) + [o for o in fam if outlines.count(o)[0] + outlines.count(o)[1] > 0]
         _ALL[tier] = fam
     return _ALL[tier]
@@ -123,9 +126,9 @@ TIERS = ['quick', 'thorough']
 def outline(tq: int, lo: int, off: int, b0: bool, b1: bool, b2: bool, b3: bool, b4: bool, b5: bool, r0: int, r1: int, r2: int,
             r3: int, r4: int):
     tier = TIERS[tq]
-    if tier == 'quick':
-        assume(r3 == 0 and r4 == 0)
     fam = family(tier)
+    if tier == 'quick' or lo >= _NSMALL[0]:
+        assume(r3 == 0 and r4 == 0)
     k = pick(off, GROUP[tier])
     assume(lo + k < len(fam))
     idx = lo + k
@@ -149,7 +152,7 @@ BOUNDS = {
     'quick': dict(outlines='all outlines with <= 4 instructions and nesting depth <= 2 (plus 6 hand-picked deeper ones); return_ codes None/7',
                   predicate_values=f'{NB} symbolic bools consumed in call order, False afterwards (loop-unrolling bound)',
                   step_values=f'3 symbolic ints (thorough: {NR}) consumed in call order: 0 -> None, 1 -> empty ToContext, 2 -> to_context(done future) and None, 3 -> to_context(done future) and 33 (stops), other -> that int (stops the chain); None afterwards'),
-    'thorough': dict(outlines='all outlines with <= 5 instructions, depth <= 2, plus every 7th outline with exactly 6 instructions, depth <= 3',
+    'thorough': dict(outlines='all outlines with <= 4 instructions (5 symbolic step values), plus every 8th outline with exactly 5 instructions (3 symbolic step values), depth <= 2',
                      predicate_values=f'{NB} symbolic bools', step_values=f'{NR} symbolic ints'),
 }
 OUTSIDE = ['outlines beyond the size/depth bound', 'more predicate/step evaluations than the value streams', 'steps that raise (C03) or await futures (C10)',
